@@ -35,6 +35,8 @@ is abandoned. `SOp`: `push k i` hands fragment `i` of message `k` to `pushWithEr
   subset of their fragments pushed, before or after the skip; skips may be repeated or stale; `K L` is not required.
 Arrival order, interleaving of pushes, reads and skips are otherwise arbitrary, so "first message of the stream
 abandoned", "abandoned message partially received" and "skip before / after fragments of later messages" are instances.
+NOT in the run theorems: unordered messages, i.e. streams that mix ordered and unordered messages (Part 1 gives the frame: the
+handler of one class touches no container of the other class), and the composition with sender and network.
 -/
 namespace C07
 open Reasm Gen
